@@ -44,8 +44,9 @@ type Cfg struct {
 	EmptyStart  bool     `json:"empty_start"`
 	Sweeper     bool     `json:"sweeper"`
 	Cleaner     bool     `json:"cleaner"`
-	LoopFirst   bool     `json:"loop_first"` // the loop may move on while a download is still in flight
+	LoopFirst   bool     `json:"loop_first"`  // the loop may move on while a download is still in flight
 	ListFaults  bool     `json:"list_faults"` // the initial listing may fail
+	NoopRemote  bool     `json:"noop_remote"` // instance r may re-publish its newest snapshot with unchanged content (once)
 	TwoRemotes  bool     `json:"two_remotes"` // two remote instances with disjoint keys; both snapshots may wait in the receiver at once
 }
 
@@ -69,41 +70,44 @@ type World struct {
 	clock uint64
 	mu    sync.Mutex
 
-	touched   map[string]appVer // "dbi/key" -> last application operation
-	commits   int
-	stores    int
-	storeFail int
-	loads     int
-	Viols     []Viol
-	remote2   []byte
-	remote2N  string
-	r2shown   bool
-	visits    map[string]int
-	idle      int
-	activity  bool // a Store or a merge happened since the loop's last poll sleep
-	bucketVer int
-	listedVer int
-	cancel    context.CancelFunc
-	cancelled bool
-	syncErr   error
-	syncDone  chan struct{}
-	lastHook  string
-	lastLSTxnEmpty bool
-	straddle  *straddleTxn
-	commitAt  []string
+	touched          map[string]appVer // "dbi/key" -> last application operation
+	commits          int
+	stores           int
+	storeFail        int
+	loads            int
+	Viols            []Viol
+	remote2          []byte
+	remote2N         string
+	r2shown          bool
+	noopShown        bool
+	txnBeforeLoad    int64
+	emptyLoad        bool
+	visits           map[string]int
+	idle             int
+	activity         bool // a Store or a merge happened since the loop's last poll sleep
+	bucketVer        int
+	listedVer        int
+	cancel           context.CancelFunc
+	cancelled        bool
+	syncErr          error
+	syncDone         chan struct{}
+	lastHook         string
+	lastLSTxnEmpty   bool
+	straddle         *straddleTxn
+	commitAt         []string
 	storesAfterQuiet int
-	lastSeq  int
-	bookSeq  int
-	loopFirsts int
-	cancelStep int
-	listFail int
-	cleanerFires int
-	prevJ    map[string]world.Ver
-	pending  int // decoded snapshots handed to the receiver and not yet taken by the loop
-	pendingMax int
-	remoteQ2 []byte
-	remoteQ2N string
-	lastTxn  int64
+	lastSeq          int
+	bookSeq          int
+	loopFirsts       int
+	cancelStep       int
+	listFail         int
+	cleanerFires     int
+	prevJ            map[string]world.Ver
+	pending          int // decoded snapshots handed to the receiver and not yet taken by the loop
+	pendingMax       int
+	remoteQ2         []byte
+	remoteQ2N        string
+	lastTxn          int64
 }
 
 type straddleTxn struct {
@@ -163,6 +167,13 @@ func sleepKey(d time.Duration) string {
 }
 
 // buildRemotes creates the scripted remote instance's snapshots with real code.
+// noopR: re-publications of instance r's snapshots 1 and 2 under later names with unchanged content
+// (what a periodic forced snapshot of an idle instance looks like). Filled by buildRemotes("r").
+var noopR struct {
+	n1b, n2b string
+	d1b, d2b []byte
+}
+
 func buildRemotes(name string) (n1 string, d1 []byte, n2 string, d2 []byte) {
 	tmp := world.NewBucket()
 	r := inst.New(name, tmp, inst.Opt{Native: true})
@@ -181,7 +192,11 @@ func buildRemotes(name string) (n1 string, d1 []byte, n2 string, d2 []byte) {
 	if _, err := r.Send(); err != nil {
 		panic(err)
 	}
-	clk += 1_000_000_000
+	clk += 400_000_000
+	if _, err := r.Send(); err != nil { // unchanged content, later name
+		panic(err)
+	}
+	clk += 600_000_000
 	r.AppTxn(func(txn *lmdb.Txn) error {
 		inst.NativePut(txn, "d", []byte("b"), 8, false, []byte("rb2"))
 		inst.NativePut(txn, "d", []byte("c"), 9, true, nil)
@@ -191,10 +206,20 @@ func buildRemotes(name string) (n1 string, d1 []byte, n2 string, d2 []byte) {
 	if _, err := r.Send(); err != nil {
 		panic(err)
 	}
+	clk += 400_000_000
+	if _, err := r.Send(); err != nil { // unchanged content, later name
+		panic(err)
+	}
 	names := tmp.Names()
+	if len(names) != 4 {
+		panic(fmt.Sprint("expected 4 snapshots of r: ", names))
+	}
 	d1, _ = tmp.Get(names[0])
-	d2, _ = tmp.Get(names[1])
-	return names[0], d1, names[1], d2
+	d2, _ = tmp.Get(names[2])
+	noopR.n1b, noopR.n2b = names[1], names[3]
+	noopR.d1b, _ = tmp.Get(names[1])
+	noopR.d2b, _ = tmp.Get(names[3])
+	return names[0], d1, names[2], d2
 }
 
 // buildRemotesQ: a second remote instance whose keys are disjoint from everything else.
@@ -244,6 +269,16 @@ func (w *World) viol(sig, msg string) {
 
 // appOp commits one application transaction. Transactions that change nothing
 // are not recorded by LMDB and are not counted as commits.
+// hookLabel names the point of the loop at which the application acts. A commit right after a load
+// transaction that changed nothing (LMDB does not record it and hands its id to the next committer)
+// is a window of its own.
+func (w *World) hookLabel() string {
+	if w.lastHook == "load.afterTxn" && w.emptyLoad {
+		return "load.afterTxn(empty-txn)"
+	}
+	return w.lastHook
+}
+
 func (w *World) appOp(op string) {
 	native := w.Cfg.Native
 	staged := map[string]appVer{}
@@ -253,10 +288,10 @@ func (w *World) appOp(op string) {
 		if native {
 			ts := w.now()
 			inst.NativePut(txn, dbi, []byte(k), ts, false, []byte(v))
-			staged[dbi+"/"+k] = appVer{val: v, ts: ts, at: w.lastHook}
+			staged[dbi+"/"+k] = appVer{val: v, ts: ts, at: w.hookLabel()}
 		} else {
 			inst.PlainPut(txn, dbi, 0, []byte(k), []byte(v))
-			staged[dbi+"/"+k] = appVer{val: v, at: w.lastHook}
+			staged[dbi+"/"+k] = appVer{val: v, at: w.hookLabel()}
 		}
 	}
 	w.A.AppTxn(func(txn *lmdb.Txn) error {
@@ -276,10 +311,10 @@ func (w *World) appOp(op string) {
 			if native {
 				ts := w.now()
 				inst.NativePut(txn, "d", []byte("a"), ts, true, nil)
-				staged["d/a"] = appVer{del: true, ts: ts, at: w.lastHook}
+				staged["d/a"] = appVer{del: true, ts: ts, at: w.hookLabel()}
 			} else {
 				inst.PlainDel(txn, "d", 0, []byte("a"), nil)
-				staged["d/a"] = appVer{del: true, at: w.lastHook}
+				staged["d/a"] = appVer{del: true, at: w.hookLabel()}
 			}
 		case "newdbi":
 			put(txn, "n", fmt.Sprintf("nk%d", w.commits), "nv")
@@ -294,7 +329,7 @@ func (w *World) appOp(op string) {
 		w.touched[k] = v
 	}
 	w.commits++
-	w.commitAt = append(w.commitAt, w.lastHook)
+	w.commitAt = append(w.commitAt, w.hookLabel())
 }
 
 func (w *World) appView() map[string]map[string]string {
@@ -721,6 +756,10 @@ func (w *World) policy(appPoints map[string]bool) sched.Policy {
 			case "sync.afterLoad":
 				w.loads++
 				w.activity = true
+			case "load.beforeTxn":
+				w.txnBeforeLoad = w.A.Env.LastTxnID()
+			case "load.afterTxn":
+				w.emptyLoad = w.A.Env.LastTxnID() == w.txnBeforeLoad
 			}
 			w.visits[loop.Point]++
 			w.mu.Unlock()
@@ -774,6 +813,20 @@ func (w *World) policy(appPoints map[string]bool) sched.Policy {
 						w.B.Put(w.remoteQ2N, w.remoteQ2)
 					}
 					w.r2shown = true
+					w.mu.Lock()
+					w.bucketVer++
+					w.idle = 0
+					w.mu.Unlock()
+				}}})
+			}
+			if cfg.NoopRemote && !w.noopShown {
+				out = append(out, sched.Choice{Label: "remote-republishes-unchanged-snapshot", Cost: 1, Act: &sched.Action{Do: func() {
+					if w.r2shown {
+						w.B.Put(noopR.n2b, noopR.d2b)
+					} else {
+						w.B.Put(noopR.n1b, noopR.d1b)
+					}
+					w.noopShown = true
 					w.mu.Lock()
 					w.bucketVer++
 					w.idle = 0
